@@ -68,6 +68,20 @@ func makeVocab(r *engine.PRNG) []string {
 		v = append(v, fam...)
 		n = 1 + r.Intn(3)
 	}
+	if r.Intn(8) == 0 {
+		// long values around the sizes at which buffers, slabs and length prefixes
+		// change: one value, the same with its last byte changed, and one byte shorter
+		ls := []int{127, 128, 255, 256, 257, 1023, 1024, 1025, 4095, 4096, 4097, 8192, 16383, 16384, 65535, 65536, 65537}
+		l := ls[r.Intn(len(ls))]
+		b := make([]byte, l)
+		for j := range b {
+			b[j] = byte('A' + (j*7+l)%53)
+		}
+		v = append(v, string(b), string(b[:l-1]))
+		b2 := append([]byte(nil), b...)
+		b2[l-1] ^= 1
+		v = append(v, string(b2))
+	}
 	for i := 0; i < n; i++ {
 		switch r.Intn(5) {
 		case 0:
